@@ -13,7 +13,7 @@ PID = "C04"
 
 # comparison of a fantasy model with conditioning from scratch: direct (Cholesky) algebra for the default strategy; the KISS-GP update
 # goes through root decompositions of interpolated operators and agrees to ~2e-8 absolute on O(0.1) values (measured over the thorough tier)
-TOL = {"exact": (1e-7, 1e-9), "kiss": (1e-6, 1e-8)}
+TOL = {"exact": (1e-7, 1e-9), "kw": (1e-7, 1e-9), "kiss": (1e-6, 1e-8)}
 
 
 def tla(v):
@@ -68,7 +68,7 @@ def make_model(torch, gpytorch, kind, lik_kind, x, y, noise=None, d=1, requires_
     elif lik_kind == "mtask":
         lik = gpytorch.likelihoods.MultitaskGaussianLikelihood(num_tasks=2)
     fam = "mtask" if lik_kind == "mtask" else kind
-    model = G.ExactModel(x, y, lik, fam, d)
+    model = KwModel(x, y, lik, d) if kind == "kw" else G.ExactModel(x, y, lik, fam, d)
     if mean == "linear":              # an input-dependent prior mean (the fantasy points have their own prior mean values)
         model.mean_module = gpytorch.means.LinearMean(d)
     model = model.to(torch.float64)
@@ -93,6 +93,35 @@ def make_model(torch, gpytorch, kind, lik_kind, x, y, noise=None, d=1, requires_
     model.eval()
     lik.eval()
     return model, lik
+
+
+_KW = {}
+
+
+def _kw_classes():
+    """an exact GP whose forward passes a call-time keyword on to its kernel (valid, rare): model(x, warp=w), get_fantasy_model(X, y, warp=w)"""
+    if _KW:
+        return _KW
+    import gpytorch
+
+    class WarpRBF(gpytorch.kernels.RBFKernel):
+        def forward(self, x1, x2, diag=False, warp=1.0, **params):
+            return super().forward(x1 * warp, x2 * warp, diag=diag, **params)
+
+    class _KwModel(gpytorch.models.ExactGP):
+        def __init__(self, x, y, lik, d=1):
+            super().__init__(x, y, lik)
+            self.mean_module = gpytorch.means.ConstantMean()
+            self.covar_module = gpytorch.kernels.ScaleKernel(WarpRBF(ard_num_dims=d))
+
+        def forward(self, x, warp=1.0):
+            return gpytorch.distributions.MultivariateNormal(self.mean_module(x), self.covar_module(x, warp=warp))
+    _KW["model"] = _KwModel
+    return _KW
+
+
+def KwModel(x, y, lik, d=1):
+    return _kw_classes()["model"](x, y, lik, d)
 
 
 def snapshot(torch, model):
@@ -155,7 +184,7 @@ def run_config(torch, gpytorch, settings, _verif, c):
     tshape = (tasks,) if tasks else ()
     desc = "%s/%s%s model_batch=%s input_batch=%s target_batch=%s fast_pred_var=%s detach=%s depth=%d grad=%s" % (
         kind, lik_kind, "/linear-mean" if c.get("mean") == "linear" else "", list(MB), list(IB), list(TB), c["fpv"], c["detach"], depth, c["grad"])
-    cell = "C04/%s/%s/mb%d-ib%d-tb%d%s%s" % (kind, lik_kind, len(MB), len(IB), len(TB), "" if c["grad"] else "/nograd",
+    cell = "C04/%s/%s/mb%d-ib%d-tb%d%s%s" % (kind + ("-callkw" if c.get("callkw") else ""), lik_kind, len(MB), len(IB), len(TB), "" if c["grad"] else "/nograd",
                                          "/unit-batch-dims" if 1 in (list(MB) + list(TB)) else "")
     key = [kind, lik_kind, list(MB), list(IB), list(TB), c["fpv"], c["detach"], depth, c["grad"], c.get("mean", "const")]
     res = dict(key=key, ok=True, nontrivial=True, sample=dict(config=desc))
@@ -172,11 +201,13 @@ def run_config(torch, gpytorch, settings, _verif, c):
     cms = lambda: (settings.fast_pred_var(c["fpv"]), settings.detach_test_caches(c["detach"]))
     from contextlib import ExitStack
 
+    callkw = dict(c.get("callkw") or {})
+
     def predict(mdl, inp):
         with ExitStack() as st:
             for cm in cms():
                 st.enter_context(cm)
-            o = mdl(inp)
+            o = mdl(inp, **callkw)
             return o.mean.detach().clone(), o.covariance_matrix.detach().clone()
 
     ok, r0 = core.guarded(lambda: predict(model, xs))
@@ -194,6 +225,7 @@ def run_config(torch, gpytorch, settings, _verif, c):
         before = snapshot(torch, cur)
         before_pred = predict(cur, xs) if k == 0 else None
         kw = {"noise": nf} if nf is not None else {}
+        kw.update(callkw)
         if _verif is not None:
             mark = len(_verif.events)
         with ExitStack() as st:
@@ -254,7 +286,7 @@ def run_config(torch, gpytorch, settings, _verif, c):
         # (2) carried solves vs recomputation from the full data
         ps = fm.prediction_strategy
         with torch.no_grad():
-            mvn = fm.likelihood(fm.forward(*fm.train_inputs), *fm.train_inputs, **({"noise": all_noise} if False else {}))
+            mvn = fm.likelihood(fm.forward(*fm.train_inputs, **callkw), *fm.train_inputs, **({"noise": all_noise} if False else {}))
             A = mvn.covariance_matrix
             rhs = (fm.train_targets.reshape(*A.shape[:-2], -1) - mvn.mean.reshape(*A.shape[:-2], -1)).unsqueeze(-1)
             want_mean_cache = torch.linalg.solve(A, rhs).squeeze(-1)
@@ -267,7 +299,7 @@ def run_config(torch, gpytorch, settings, _verif, c):
                 if not g3:
                     return fail("carried-mean-cache", "carried A^-1 (y - m) differs from the solve recomputed from the full data: " + w3)
             cc = [v for k2, v in memo.items() if (k2[0] if isinstance(k2, tuple) else k2) == "covar_cache"]
-            if cc and kind == "exact":
+            if cc and kind in ("exact", "kw"):
                 Rm = cc[0]
                 Rm = Rm.to_dense() if hasattr(Rm, "to_dense") else Rm
                 Ainv = torch.linalg.inv(A)
@@ -509,6 +541,9 @@ def run(ck):
                         continue
                     cfgs.append(dict(kind="exact", lik=lik, MB=list(MB), IB=list(IB), TB=list(TB), meaning=list(meaning), fpv=fpv, detach=detach,
                                      depth=depth, grad=True, seed=ck.seed * 1000 + len(cfgs)))
+        for fpv in (False, True):                     # call-time keywords handed through get_fantasy_model(X, y, **kw)
+            cfgs.append(dict(kind="kw", lik="homo", callkw=dict(warp=1.6), MB=list(MB), IB=list(IB), TB=list(TB), meaning=list(meaning), fpv=fpv, detach=True,
+                             depth=2, grad=True, seed=ck.seed * 1000 + len(cfgs)))
         if len(MB) == 0 and len(TB) <= 1:
             for grad in (True, False):
                 cfgs.append(dict(kind="kiss", lik="homo", MB=list(MB), IB=list(IB), TB=list(TB), meaning=list(meaning), fpv=False, detach=True,
